@@ -680,7 +680,7 @@ func (c *Ctx) mapGet(st *State, m MapV, key Value, mt *types.Map) (Value, *Term)
 		kt := c.absKeyTerm(st, key)
 		if kt == nil {
 			// string-keyed abstract map: uninterpreted per-map lookups keyed by fresh symbols are not modelled
-			unsupported("lookup in abstract map with non-scalar key")
+			unsupported("lookup in abstract map %s with non-scalar key (entries %d)", mo.Tag, len(mo.Entries))
 		}
 		present = App("mapHas."+mo.Tag, BoolSort, kt)
 		v := c.absMapValue(st, mo, kt, mt.Elem())
